@@ -209,6 +209,33 @@ class Gen:
         return ("flat", xs)
 
 
+def rebuild_family(g, sizes=(999, 1001)):
+    """a concatenation above ARR_EXTEND_THRESHOLD of an evaluated ("cheap": range) and an unevaluated
+    (literal / comprehension / mapped) half, cut back to a short window inside either half or across the
+    seam, and concatenated again below the threshold with evaluated and unevaluated arrays: the second
+    concatenation copies element by element and must cope with windows whose elements are not all of
+    one kind"""
+    out = []
+    for n in sizes:
+        for how in ("lit", "comp"):
+            for first in (True, False):
+                big, lazy = ("range", 0, n - 1), (lambda: g.lit(2, how))
+                ext = (lambda: ("cat", big, lazy())) if first else (lambda: ("cat", lazy(), big))
+                seam = n if first else 2
+                for (i, e) in ((seam - 2, seam + 1), (seam - 1, None) if first else (None, seam + 1), (0, 2), (-2, None)):
+                    win = lambda: ("slice", ext(), i, e, None, "idx")  # noqa
+                    out.append(("cat", win(), ("range", 1, 3)))
+                    out.append(("cat", ("range", 1, 2), win()))
+                    out.append(("cat", win(), g.lit(1, "lit")))
+                    out.append(("rev", ("cat", win(), ("range", 0, 1))))
+                    out.append(("flat", [win(), ("range", 0, 1), win()]))
+                    out.append(("rmat", ("cat", win(), ("range", 5, 6)), 1))
+        mapped = ("map", 1, ("range", 0, 2))
+        out.append(("cat", ("slice", ("cat", ("range", 0, n - 1), mapped), n - 1, None, None, "idx"), ("range", 7, 8)))
+        out.append(("cat", ("range", 7, 8), ("slice", ("cat", mapped, ("range", 0, n - 1)), None, 4, None, "idx")))
+    return out
+
+
 def enumerate_cases(run):
     """quick: exhaustive depth-1 over a reduced parameter grid + threshold family + random
     depth 2..4; thorough: the full grid, exhaustive depth-2 unary chains, more random."""
@@ -254,6 +281,7 @@ def enumerate_cases(run):
         cases.append(("rev", ("cat", one(), big)))
         cases.append(("slice", ("rev", ("cat", big, g.lit(2, "comp"))), 1, None, 499, "idx"))
         cases.append(("flat", [big, one(), one()]))
+    cases.extend(rebuild_family(g, sizes=(999, 1001, 2500) if thorough else (1001,)))
     if thorough:
         # exhaustive depth 2: every unary op over every depth-1 unary op (reduced grid) over a leaf set
         small_leaves = [lambda: g.lit(3, "lit"), lambda: ("range", 0, 3), lambda: g.lit(0, "lit")]
